@@ -130,6 +130,13 @@ theorem autoSuffix_inj {m n : Nat} (h : autoSuffix m = autoSuffix n) : m = n := 
 @[simp] theorem renumber_generics (s i : Nat) (r : Rec) : (renumber s i r).generics = r.generics := by
   unfold renumber; repeat' split
   all_goals rfl
+@[simp] theorem renumber_cfi (s i : Nat) (r : Rec) : (renumber s i r).cfi = r.cfi := by
+  unfold renumber; repeat' split
+  all_goals rfl
+@[simp] theorem renumber_hasClone (s i : Nat) (r : Rec) : hasClone (renumber s i r) = hasClone r := by
+  simp [hasClone]
+@[simp] theorem renumber_cloneSuffix (s i : Nat) (r : Rec) : cloneSuffix (renumber s i r) = cloneSuffix r := by
+  simp [cloneSuffix]
 
 theorem renumber_sfx_templated {s i : Nat} {r : Rec} (h : eligible r = false) :
     (renumber s i r).sfx = r.sfx := by
@@ -298,7 +305,7 @@ theorem number_names_nodup {vis : Wrap → Bool} (pre : Str) (l : List Rec) (ok 
 /-! ### counting -/
 
 /-- C entry points one stage-1 record ends up with. -/
-def cw (r : Rec) : Nat := if r.wrap.c then (if r.wrap.f && r.hasBuf then 2 else 1) else 0
+def cw (r : Rec) : Nat := (if r.wrap.c then 1 else 0) + (if hasClone r then 1 else 0)
 /-- Fortran specifics one stage-1 record ends up with. -/
 def fw (r : Rec) : Nat :=
   if r.wrap.f then (if r.generics.isEmpty then 1 else r.generics.length) else 0
@@ -378,8 +385,7 @@ theorem countP_c_flatMap_bufferifyRec (l : List Rec) :
     rw [List.flatMap_cons, List.countP_append, ih]
     have : (bufferifyRec r).countP (fun x => x.wrap.c) = cw r := by
       unfold bufferifyRec cw
-      by_cases hc : r.wrap.c = true <;> by_cases hf : r.wrap.f = true <;> by_cases hb : r.hasBuf = true <;>
-        simp [hc, hf, hb]
+      by_cases hk : hasClone r = true <;> by_cases hc : r.wrap.c = true <;> simp [hk, hc]
     rw [this]; simp
 
 theorem sum_fw_flatMap_bufferifyRec (l : List Rec) :
@@ -534,6 +540,13 @@ theorem autoSuffix_isTok (n : Nat) : isTok (autoSuffix n) = true := by
   exact absurd this (by decide)
 
 theorem bufSuffix_extLike : extLike bufSuffix = true := by decide
+theorem cfiSuffix_extLike : extLike cfiSuffix = true := by decide
+theorem cloneSuffix_extLike (r : Rec) : extLike (cloneSuffix r) = true := by
+  unfold cloneSuffix; split
+  · exact cfiSuffix_extLike
+  · exact bufSuffix_extLike
+theorem cloneSuffix_ne_nil (r : Rec) : ([] : Str) ≠ cloneSuffix r := by
+  unfold cloneSuffix; split <;> decide
 
 /-- Name of a variant of a record: the function suffix extended by `e`. -/
 def nameExt (pre : Str) (r : Rec) (e : Str) : Str :=
